@@ -243,7 +243,7 @@ def _nearmiss_case(ch):
     prog, _b = gen.make_prog(ch, gen.Cfg(max_depth=3, max_body=3, max_lets=2, max_maps=2, max_macros=2, general_numbers=False))
     muts = []
     for _ in range(ch.pick([0, 1, 1, 1, 1, 1, 2, 2])):
-        muts.append([ch.pick(["delete", "duplicate", "swap", "replace", "replace", "insert", "bad-register-size"]), ch.int(0, 10**6), ch.int(0, len(POOL) - 1)])
+        muts.append([ch.pick(["delete", "duplicate", "swap", "replace", "replace", "insert", "bad-register-size", "import-statement"]), ch.int(0, 10**6), ch.int(0, len(POOL) - 1)])
     order = [[ch.int(0, 50), ch.int(0, 50)] for _ in range(ch.pick([0, 0, 1, 1, 2]))]
     return {"prog": prog, "seps": ch.ints(16, 0, 5), "muts": muts, "order": order}
 
@@ -406,6 +406,12 @@ def negative(case):
             toks[i] = POOL[pool_i]
         elif op == "insert":
             toks.insert(i, POOL[pool_i])
+        elif op == "import-statement":
+            # grammatical, refused by its rule ("not yet implemented"): a whole statement put
+            # where a statement may stand
+            seps = [j for j, (k_, _s) in enumerate(toks) if k_ in ("NL", ";")]
+            j = seps[where % len(seps)] + 1 if seps else 0
+            toks[j:j] = [("IMPORT", "import"), ("ID", "a"), ("AS", "as"), ("ID", "b"), ("NL", "\n")]
         elif op == "bad-register-size":
             # grammatical, but refused by the register rule itself: the error must still point
             # into (or after) that statement
